@@ -462,14 +462,16 @@ RunLoop:
 				// numeric values because they have been prepared previously.
 				nextStart, _ := Add(start, step)
 
-				// Check if the loop is done.  It can be done if we have gone
-				// over the stop value or if there has been overflow /
-				// underflow.
+				// Check if the loop is done.  The loop continues only while the
+				// next value is <= stop (>= stop for a negative step), so it is
+				// done if we have gone over the stop value, if the comparison is
+				// not true because the next value or stop is NaN, or if there
+				// has been overflow / underflow.
 				var done bool
 				if isPositive(step) {
-					done = numIsLessThan(stop, nextStart) || numIsLessThan(nextStart, start)
+					done = !numIsLessOrEqual(nextStart, stop) || numIsLessThan(nextStart, start)
 				} else {
-					done = numIsLessThan(nextStart, stop) || numIsLessThan(start, nextStart)
+					done = !numIsLessOrEqual(stop, nextStart) || numIsLessThan(start, nextStart)
 				}
 				if done {
 					nextStart = NilValue
